@@ -184,6 +184,9 @@ func (fr *frame) get(key ssa.Value) value {
 		if v == nil {
 			panic(engineError{fmt.Sprintf("get: unset value %s in %s", key.Name(), fr.fn)})
 		}
+		if pv, bad := v.(poisonVal); bad && fr.ex.inInit == 0 {
+			panic(engineError{"use of a package-level value that could not be initialised: " + pv.why})
+		}
 		return v
 	}
 	panic(engineError{fmt.Sprintf("get: no value for %T %v in %s", key, key.Name(), fr.fn)})
@@ -316,11 +319,57 @@ func (ex *Exec) runInitFrame(fr *frame, pkg *ssa.Package, last *ssa.Instruction)
 					continue
 				}
 			}
+			if c, ok := instr.(*ssa.Call); ok {
+				// a call that cannot be executed poisons only its result
+				if ex.tryInitCall(fr, c) {
+					continue
+				}
+			}
 			if visitInstr(fr, instr) == kReturn {
 				return
 			}
 		}
 	}
+}
+
+// poisonVal marks a value whose initialiser could not be executed.
+type poisonVal struct{ why string }
+
+// tryInitCall executes a call in a package initialiser; on an engine error the
+// result becomes a poison value (reported only if it is ever used).
+func (ex *Exec) tryInitCall(fr *frame, c *ssa.Call) (handled bool) {
+	depth, steps := ex.depth, ex.steps
+	defer func() {
+		if r := recover(); r != nil {
+			why := ""
+			switch r := r.(type) {
+			case engineError:
+				why = firstLine(r.msg)
+			case runtime.Error:
+				why = "engine runtime error: " + r.Error()
+			default:
+				panic(r)
+			}
+			ex.depth, ex.steps = depth, steps
+			n := c.Call.Signature().Results().Len()
+			pv := poisonVal{fmt.Sprintf("%s failed during package initialisation: %s", c.Call.Value.Name(), why)}
+			if n <= 1 {
+				fr.set(c, pv)
+			} else {
+				t := make(tuple, n)
+				for i := range t {
+					t[i] = pv
+				}
+				fr.set(c, t)
+			}
+			if ex.drv != nil {
+				ex.drv.note("init: " + pv.why)
+			}
+			handled = true
+		}
+	}()
+	visitInstr(fr, c)
+	return true
 }
 
 func (ex *Exec) poisonRest(pkg *ssa.Package, initFn *ssa.Function, at ssa.Instruction, why string) {
@@ -353,7 +402,7 @@ func (ex *Exec) poisonRest(pkg *ssa.Package, initFn *ssa.Function, at ssa.Instru
 		}
 	}
 	if ex.drv != nil {
-		ex.drv.note(fmt.Sprintf("init of %s aborted: %s", pkg.Pkg.Path(), why))
+		ex.drv.note(fmt.Sprintf("init of %s aborted: %s", pkg.Pkg.Path(), firstLine(why)))
 	}
 }
 
